@@ -213,10 +213,9 @@ def jitdiff (s1 e1 s2 e2 : Array Int) (h1 : s1.size = e1.size) (h2 : s2.size = e
   let r := jitdiffLoop s1 e1 s2 e2 h1 h2 0 0 {}
   emitRestD s1 e1 h1 r.1 r.2
 
-/-! ## n-ary union (`jitunion_isets`); `starts`/`ends` already argsorted by `starts`
-(the argsort is modelled in `Core/ISet.lean`).  The reads `starts[0]`, `ends[0]` need `0 < n`:
-the only caller (`_union_intervals`) passes the concatenation of ≥ 3 supports; an empty
-concatenation is the documented precondition failure. -/
+/-! ## n-ary union (`jitunion_isets`); `starts`/`ends` already argsorted by `starts`.
+After `fix:` 5c9a07f the kernel returns the empty result for `n == 0`, which is what guards the
+reads `starts[0]`, `ends[0]`. -/
 
 def unionIsetsLoop (st en : Array Int) (h : st.size = en.size) (i : Nat) (curS e : Int) (out : UOut) : UOut :=
   if hi : i < st.size then
@@ -227,7 +226,7 @@ def unionIsetsLoop (st en : Array Int) (h : st.size = en.size) (i : Nat) (curS e
   else { st := out.st.push curS, en := out.en.push e }
 termination_by st.size - i
 
-def jitunionIsets (st en : Array Int) (h : st.size = en.size) (hn : 0 < st.size) : UOut :=
-  unionIsetsLoop st en h 1 st[0] (en[0]'(h ▸ hn)) {}
+def jitunionIsets (st en : Array Int) (h : st.size = en.size) : UOut :=
+  if hn : 0 < st.size then unionIsetsLoop st en h 1 st[0] (en[0]'(h ▸ hn)) {} else {}
 
 end Pyn
